@@ -16,6 +16,7 @@ struct S2 { @location(0) a: f32, @location(1) m: f32 }
 struct S3 { @location(0) a: f32, @location(1) m: f32, @location(2) m2: f32 }
 struct Unused { @location(0) a: f32 }
 struct P { @location(3) p: f32 }
+struct BI { @builtin(vertex_index) vi: u32, @builtin(instance_index) ii: u32 }
 alias A0 = array<S0, 2>;
 alias A1 = array<S1, 2>;
 alias A2 = array<S2, 2>;
@@ -25,10 +26,10 @@ alias AA0 = array<array<S0, 2>, 3>;
 var<private> g0: f32;
 var<workgroup> g1: f32;
 var<push_constant> g2: f32;
-@vertex fn e0(a: S0, @location(7) b: f32, c: P) -> @builtin(position) vec4<f32> { return vec4<f32>(0.0); }
+@vertex fn e0(a: S0, @location(7) b: f32, c: P, d: BI) -> @builtin(position) vec4<f32> { return vec4<f32>(0.0); }
 @fragment fn e1(a: S0, c: P) -> @location(0) vec4<f32> { return vec4<f32>(0.0); }
 '''
-STRUCTS = ['S0', 'S1', 'S2', 'S3', 'Unused', 'P']
+STRUCTS = ['S0', 'S1', 'S2', 'S3', 'Unused', 'P', 'BI']      # BI: a parameter struct made of builtins only (no field left, still a struct the caller names)
 SPACES = ['Private', 'WorkGroup', 'Uniform', 'Storage', 'PushConstant']
 ARG2_INDEX = {0: 2, 1: 1}          # position of the second struct parameter of e0 / e1
 
@@ -72,7 +73,7 @@ def run(ctx):
     if ctx.tier == 'quick':
         # ('name', handle) pins a hole to a type for that run: a variable of type S3 whose two last members are symbolic, next to another variable
         plans = [['g0', 'S2.m'], ['g1', 'S3.m', 'e0.res'], ['e0.arg', 'e1.arg', 'e1.res'], ['g2', 'S1.m', 'e1.arg'], ['e0.arg2', 'e1.arg', 'e1.arg2'],
-                 [('g2', H['S3']), 'g0', 'S3.m', 'S3.m2']]          # an EARLIER variable may already have reached one of the member types
+                 [('g2', H['S3']), ('g0', H['S1']), 'S3.m', 'S3.m2']]          # an EARLIER variable (g0: S1) may already have reached one of the member types
     else:
         plans = [['g0', 'S2.m', 'S3.m'], ['g1', 'S3.m', 'e0.res', 'e1.arg'], ['e0.arg', 'e1.arg', 'e1.res', 'e0.res'], ['e0.arg', 'e0.arg2', 'e1.arg', 'e1.arg2', 'g0'], ['g2', 'S1.m', 'S2.m', 'e1.arg'],
                  ['g0', 'g1', 'S1.m'], ['g0', 'S1.m', 'S2.m', 'S3.m'], [('g0', H['S3']), 'g2', 'S3.m', 'S3.m2'], [('g1', H['S3']), 'g0', 'S3.m', 'S3.m2', 'S2.m']]
@@ -127,6 +128,7 @@ def run(ctx):
                           lambda it: it.call('structs', [mkref(module), write_options(S.conv, **opts)]),
                           assume=assume, env={'hash_orders': 'two'}, anchors=['structs', 'add_types_recursive', 'rust_struct'], timeout_s=3000)
         want = reference(terms, H, edges, n_types)
+        reach_of = want.pop('?reach')
         n_pan = 0
         for pc, kind, out, _ in res:
             if kind == 'panic':
@@ -145,6 +147,9 @@ def run(ctx):
                 conds.append((f'{sname}: emitted iff host-visible', want[sname] == z3.BoolVal(emitted)))
                 if emitted:
                     conds.append((f'{sname}: emitted once', z3.BoolVal('duplicates' not in sts[sname])))
+                    # the same closure decides the host-shareable role (encase is on in this harness): derive present iff reachable from a variable
+                    conds.append((f'{sname}: classified host-shareable iff reachable from a module-scope variable',
+                                  reach_of[sname] == z3.BoolVal('encase::ShaderType' in sts[sname]['derives'])))
             extra = [n for n in order if n not in STRUCTS]
             conds.append(('no other struct item', z3.BoolVal(not extra)))
             m = ctx.check(pc, z3.Or([z3.Not(c_) for _, c_ in conds]))
@@ -202,9 +207,10 @@ def reference(terms, H, edges, n_types):
     want = {}
     for s in STRUCTS:
         h = H[s]
-        is_arg = z3.Or(terms['e0.arg'] == h, terms['e1.arg'] == h, terms['e0.arg2'] == h, terms['e1.arg2'] == h)
+        is_arg = z3.Or(terms['e0.arg'] == h, terms['e1.arg'] == h, terms['e0.arg2'] == h, terms['e1.arg2'] == h, z3.BoolVal(s == 'BI'))
         is_res = z3.Or(terms['e0.res'] == h, terms['e1.res'] == h)
         want[s] = z3.simplify(z3.Or(reach[h], z3.And(is_arg, z3.Not(is_res))))
+    want['?reach'] = {s: reach[H[s]] for s in STRUCTS}
     return want
 
 
@@ -246,6 +252,7 @@ struct S2 {{ @location(0) a: f32, @location(1) m: {sp("S2.m")} }}
 struct S3 {{ @location(0) a: f32, @location(1) m: {sp("S3.m")}, @location(2) m2: {sp("S3.m2")} }}
 struct Unused {{ @location(0) a: f32 }}
 struct P {{ @location(3) p: f32 }}
+struct BI {{ @builtin(vertex_index) vi: u32, @builtin(instance_index) ii: u32 }}
 alias A0 = array<S0, 2>;
 alias A1 = array<S1, 2>;
 alias A2 = array<S2, 2>;
@@ -253,7 +260,7 @@ alias R0 = array<S0>;
 alias R1 = array<S1>;
 alias AA0 = array<array<S0, 2>, 3>;
 {chr(10).join(gl)}
-@vertex fn e0(a: {sp("e0.arg")}, @location(7) b: f32, c: {sp("e0.arg2")}) {res("e0.res")} {{ {body("e0.res")} }}
+@vertex fn e0(a: {sp("e0.arg")}, @location(7) b: f32, c: {sp("e0.arg2")}, d: BI) {res("e0.res")} {{ {body("e0.res")} }}
 @fragment fn e1(a: {sp("e1.arg")}, c: {sp("e1.arg2")}) {res("e1.res")} {{ {body("e1.res")} }}
 '''
 
@@ -304,7 +311,7 @@ def native(ctx):
                     if nx not in reach:
                         reach.add(nx)
                         changed = True
-        args = {vals['e0.arg'], vals['e1.arg'], vals['e0.arg2'], vals['e1.arg2']}
+        args = {vals['e0.arg'], vals['e1.arg'], vals['e0.arg2'], vals['e1.arg2'], H['BI']}
         ress = {vals['e0.res'], vals['e1.res']}
         want = {s_: (H[s_] in reach) or (H[s_] in args and H[s_] not in ress) for s_ in STRUCTS}
         rep, det = replay(ctx, vals, H, hf32, hvec4, mj, opts, want)
